@@ -244,11 +244,11 @@ func Coordinate(c *Ctx, ck *Check) int {
 			timeout = 40 * time.Minute // safety net only; thorough cases (delay 3 + S-dpor on one program) can take minutes
 		}
 	}
-	// overall time budget (VERIF_BUDGET_S; default 25 min quick, 3 h thorough): when it is used up the workers stop
+	// overall time budget (VERIF_BUDGET_S; default 25 min quick, 90 min thorough): when it is used up the workers stop
 	// taking new cases and the run ends with exhaustive=false; a budget is never a verdict
 	budget := int64(1500)
 	if c.Thorough() {
-		budget = 3 * 3600
+		budget = 5400
 	}
 	if b, err := strconv.ParseInt(os.Getenv("VERIF_BUDGET_S"), 10, 64); err == nil && b > 0 {
 		budget = b
